@@ -1269,17 +1269,339 @@ fn gen_c07(tier: &str, r: &Rng, o: &mut Out<'_>) {
     }
     o.meta("exhaustive", &format!("all 2^(n-1) chunkings of {} streams with n <= {}", nstreams, maxn));
 }
+
+// ---------------------------------------------------------------- C05: routing follows the tables
+
+fn probes(m: &mut Mux<'_>, pids: &[u16]) -> Vec<Vec<u8>> {
+    let r = m.r;
+    pids.iter().map(|&p| m.raw(p, false, &r.bytes(1 + r.below(184) as usize))).collect()
+}
+
+fn gen_c05(tier: &str, r: &Rng, o: &mut Out<'_>) {
+    let n = if tier == "thorough" { 60_000 } else { 2_000 };
+    for i in 0..n {
+        let mut m = Mux::new(r);
+        let mut used = vec![0u16, 0x1fff];
+        let mut progs = rand_progs(r, 1 + r.below(4) as usize, 4, &mut used);
+        let mut nit = if r.chance(1, 3) { let n = distinct_pids(r, 1, &used)[0]; used.push(n); Some(n) } else { None };
+        let mut patv = r.byte() & 31;
+        let mut all: Vec<Vec<u8>> = vec![];
+        let mut ever: Vec<u16> = vec![];
+        let emit_pat = |m: &mut Mux<'_>, all: &mut Vec<Vec<u8>>, progs: &[Prog], nit: Option<u16>, v: u8| {
+            let s = pat_section(9, v, &pat_of(progs, nit)); all.extend(m.section(0, &s, &plan_for(r, &s)));
+        };
+        emit_pat(&mut m, &mut all, &progs, nit, patv);
+        for p in progs.iter() { let s = pmt_of(p); all.extend(m.section(p.pmt_pid, &s, &plan_for(r, &s))); for st in p.streams.iter() { ever.push(st.1); } }
+        all.extend(probes(&mut m, &ever));
+        for _step in 0..(1 + r.below(5)) {
+            match r.below(if i % 4 == 0 { 3 } else { 6 }) {
+                0 | 1 | 2 => {
+                    // new PMT version for one program: add / remove / re-type streams
+                    let k = r.below(progs.len() as u64) as usize;
+                    let p = &mut progs[k];
+                    p.version = (p.version + 1 + r.below(3) as u8) & 31;
+                    match r.below(4) {
+                        0 => { let np = distinct_pids(r, 1, &used)[0]; used.push(np); p.streams.push((PES_TYPES[r.below(6) as usize], np, vec![])); ever.push(np); }
+                        1 => { if p.streams.len() > 1 { let j = r.below(p.streams.len() as u64) as usize; p.streams.remove(j); } }
+                        2 => { let j = r.below(p.streams.len() as u64) as usize; p.streams[j].0 = if r.chance(1, 2) { 0x05 } else { PES_TYPES[r.below(6) as usize] }; }
+                        _ => { let j = r.below(p.streams.len() as u64) as usize; let st = p.streams.remove(j); p.streams.push(st); }
+                    }
+                    let s = pmt_of(p); let pid = p.pmt_pid;
+                    all.extend(m.section(pid, &s, &plan_for(r, &s)));
+                }
+                3 => {
+                    // new PAT version: add a program
+                    let mut np = rand_progs(r, 1, 3, &mut used);
+                    np[0].num = 100 + progs.len() as u16;
+                    for st in np[0].streams.iter() { ever.push(st.1); }
+                    patv = (patv + 1) & 31;
+                    progs.extend(np.clone());
+                    emit_pat(&mut m, &mut all, &progs, nit, patv);
+                    for p in progs.iter() { let s = pmt_of(p); all.extend(m.section(p.pmt_pid, &s, &plan_for(r, &s))); }
+                }
+                4 => {
+                    // new PAT version: drop a program / toggle the network entry
+                    patv = (patv + 1) & 31;
+                    if progs.len() > 1 && r.chance(2, 3) { let k = r.below(progs.len() as u64) as usize; progs.remove(k); }
+                    else if nit.is_some() { nit = None } else { let n = distinct_pids(r, 1, &used)[0]; used.push(n); nit = Some(n); }
+                    emit_pat(&mut m, &mut all, &progs, nit, patv);
+                    for p in progs.iter() { let s = pmt_of(p); all.extend(m.section(p.pmt_pid, &s, &plan_for(r, &s))); }
+                }
+                _ => {
+                    // PMT PID move for one program (PAT version bump)
+                    patv = (patv + 1) & 31;
+                    let k = r.below(progs.len() as u64) as usize;
+                    let np = distinct_pids(r, 1, &used)[0]; used.push(np);
+                    progs[k].pmt_pid = np;
+                    emit_pat(&mut m, &mut all, &progs, nit, patv);
+                    for p in progs.iter() { let s = pmt_of(p); all.extend(m.section(p.pmt_pid, &s, &plan_for(r, &s))); }
+                }
+            }
+            let mut pp = ever.clone(); pp.sort(); pp.dedup();
+            all.extend(probes(&mut m, &pp));
+            if let Some(nn) = nit { all.extend(probes(&mut m, &[nn])); }
+        }
+        emit(o, true, "b0t0", &rand_pushes(r, &all));
+    }
+    o.meta("plans", "histories of PAT/PMT versions: streams added/removed/re-typed/reordered, programs added/dropped, NIT toggled, PMT PID moves; probe packets after every table");
+}
+
+// ---------------------------------------------------------------- C04 gate / C11: damaged tables
+
+fn base_tables(r: &Rng) -> (Vec<Prog>, Vec<u8>) {
+    let mut used = vec![0u16, 0x1fff];
+    let progs = rand_progs(r, 1 + r.below(2) as usize, 3, &mut used);
+    let pat = pat_section(3, r.byte() & 31, &pat_of(&progs, None));
+    (progs, pat)
+}
+
+fn gen_c04_gate(tier: &str, r: &Rng, o: &mut Out<'_>) {
+    let nt = if tier == "thorough" { 300 } else { 12 };
+    for t in 0..nt {
+        let (progs, pat) = base_tables(r);
+        let big = t % 3 == 0;
+        // every single bit of the PAT flipped: nothing may be requested
+        let target_pat = t % 2 == 0;
+        let sec = if target_pat { pat.clone() } else {
+            let mut p = progs[0].clone(); if big { for _ in 0..12 { p.prog_desc.extend(rand_desc(r)); } } pmt_of(&p)
+        };
+        let nbits = sec.len() * 8;
+        let stride = if tier == "thorough" || nbits < 400 { 1 } else { 5 };
+        for bit in (0..nbits).step_by(stride) {
+            let mut bad = sec.clone();
+            bad[bit / 8] ^= 0x80 >> (bit % 8);
+            let mut m = Mux::new(r);
+            let mut all = vec![];
+            if target_pat { all.extend(m.section(0, &bad, &plan_for(r, &bad))); }
+            else { all.extend(m.section(0, &pat, &simple_plan(pat.len()))); all.extend(m.section(progs[0].pmt_pid, &bad, &plan_for(r, &bad))); }
+            let pp: Vec<u16> = progs.iter().flat_map(|p| p.streams.iter().map(|s| s.1).chain(std::iter::once(p.pmt_pid))).collect();
+            all.extend(probes(&mut m, &pp));
+            emit(o, true, "b0t0", &[concat(&all)]);
+        }
+        // bit pairs, bursts <= 32 bits, random byte damage
+        for _ in 0..40 {
+            let mut bad = sec.clone();
+            match r.below(3) {
+                0 => { for _ in 0..2 { let b = r.below(nbits as u64) as usize; bad[b / 8] ^= 0x80 >> (b % 8); } }
+                1 => { let st = r.below(nbits as u64) as usize; let len = 1 + r.below(32) as usize; for b in st..(st + len).min(nbits) { if b == st || b == (st + len).min(nbits) - 1 || r.chance(1, 2) { bad[b / 8] ^= 0x80 >> (b % 8); } } }
+                _ => { for _ in 0..(1 + r.below(4)) { let i = r.below(bad.len() as u64) as usize; bad[i] = r.byte(); } }
+            }
+            if bad == sec { continue; }
+            let mut m = Mux::new(r);
+            let mut all = vec![];
+            if target_pat { all.extend(m.section(0, &bad, &plan_for(r, &bad))); }
+            else { all.extend(m.section(0, &pat, &simple_plan(pat.len()))); all.extend(m.section(progs[0].pmt_pid, &bad, &plan_for(r, &bad))); }
+            emit(o, true, "b0t0", &[concat(&all)]);
+        }
+    }
+}
+
+fn gen_c04(tier: &str, r: &Rng, o: &mut Out<'_>) {
+    gen_crc_cases(tier, r, o);
+    gen_c04_gate(tier, r, o);
+    o.meta("exhaustive", "all 256 one-byte CRC inputs (= every table row); every single-bit corruption of the generated tables");
+}
+
+fn gen_c11(tier: &str, r: &Rng, o: &mut Out<'_>) {
+    let nt = if tier == "thorough" { 4_000 } else { 150 };
+    for t in 0..nt {
+        let (progs, pat) = base_tables(r);
+        let mut p0 = progs[0].clone();
+        if t % 2 == 0 { for _ in 0..15 { p0.prog_desc.extend(rand_desc(r)); } }
+        let pmt = pmt_of(&p0);
+        for &target_pat in [true, false].iter() {
+            let sec = if target_pat { pat.clone() } else { pmt.clone() };
+            let pid = if target_pat { 0 } else { p0.pmt_pid };
+            // the "next intact" transmission: same version (F2 shape: id prefix hF2) or a different version
+            for &same_version in [true, false].iter() {
+                for dmg in 0..4 {
+                    let mut m = Mux::new(r);
+                    let mut all = vec![];
+                    if !target_pat { all.extend(m.section(0, &pat, &simple_plan(pat.len()))); }
+                    // previously applied version (optional)
+                    let had_prev = r.chance(1, 2);
+                    if had_prev {
+                        let mut prev = sec.clone();
+                        prev[5] = (prev[5] & 0xc1) | ((((prev[5] >> 1) & 31).wrapping_add(7) & 31) << 1);
+                        let l = prev.len(); prev.truncate(l - 4); let prev = with_crc(prev);
+                        all.extend(m.section(pid, &prev, &plan_for(r, &prev)));
+                    }
+                    let mut damaged_pk = {
+                        let mut bad = sec.clone();
+                        if dmg == 0 { let b = 24 + r.below((bad.len() * 8 - 24) as u64) as usize; bad[b / 8] ^= 0x80 >> (b % 8); if b / 8 == 5 && (b % 8) >= 2 && (b % 8) <= 6 { bad[5] ^= 0x80 >> (b % 8); let k = 8 % bad.len(); bad[k] ^= 1; } }
+                        let plan = if dmg == 0 { plan_for(r, &bad) } else { SecPlan { pre: vec![], first: 30.min(bad.len() - 1).max(8), conts: vec![40, 50], trailing_stuff: true } };
+                        m.section(pid, &bad, &plan)
+                    };
+                    match dmg {
+                        1 => { if damaged_pk.len() > 1 { let k = 1 + r.below((damaged_pk.len() - 1) as u64) as usize; damaged_pk.remove(k); let c = m.cc(pid); m.cc.insert(pid, c); } }
+                        2 => { damaged_pk.truncate(1); }
+                        3 => { if damaged_pk.len() > 1 { damaged_pk.truncate(1 + r.below((damaged_pk.len() - 1) as u64) as usize); } }
+                        _ => {}
+                    }
+                    all.extend(damaged_pk);
+                    let intact = if same_version { sec.clone() } else {
+                        let mut s2 = sec.clone(); s2[5] = (s2[5] & 0xc1) | ((((s2[5] >> 1) & 31).wrapping_add(1) & 31) << 1);
+                        let l = s2.len(); s2.truncate(l - 4); with_crc(s2)
+                    };
+                    for _ in 0..(1 + r.below(3)) { all.extend(m.section(pid, &intact, &plan_for(r, &intact))); }
+                    let pp: Vec<u16> = p0.streams.iter().map(|s| s.1).chain(std::iter::once(p0.pmt_pid)).collect();
+                    all.extend(probes(&mut m, &pp));
+                    let body = format!("demux b0t0 {}", hex(&concat(&all)));
+                    // same-version-as-damaged-start is the recorded finding F2; everything else is decisive
+                    if same_version { o.h(&body); } else { o.d(&body); }
+                }
+            }
+        }
+    }
+    o.meta("plans", "each table x {bit flip, lost continuation, early restart, truncation} x following intact transmission (same / different version) x optional previously applied version");
+}
+
+// ---------------------------------------------------------------- C01: hostile input, every accessor
+
+fn mutate(r: &Rng, pkts: &mut Vec<Vec<u8>>) {
+    for _ in 0..(1 + r.below(6)) {
+        if pkts.is_empty() { return; }
+        let i = r.below(pkts.len() as u64) as usize;
+        match r.below(9) {
+            0 => { let j = r.below(188) as usize; pkts[i][j] ^= 1 << r.below(8); }
+            1 => { let j = r.below(188) as usize; pkts[i][j] = r.byte(); }
+            2 => { pkts[i][4] = [0u8, 1, 182, 183, 184, 255][r.below(6) as usize]; pkts[i][3] |= 0x20; }
+            3 => { pkts[i][3] = (pkts[i][3] & 0x0f) | (r.byte() & 0xf0); }
+            4 => { pkts.remove(i); }
+            5 => { let p = pkts[i].clone(); pkts.insert(i, p); }
+            6 => { let j = 4 + r.below(20) as usize; pkts[i][j] = [0u8, 0xff, 0x0f, 0xf0, 0x80][r.below(5) as usize]; }
+            7 => { let j = 4 + r.below(184) as usize; for k in j..188 { pkts[i][k] = 0xff; } }
+            _ => { let j = r.below(pkts.len() as u64) as usize; pkts.swap(i, j); }
+        }
+    }
+}
+
+fn hostile_psi_stream(r: &Rng) -> Vec<Vec<u8>> {
+    // sections with hostile bodies on the PAT PID and on a PMT PID (reach the processors when the CRC is bypassed)
+    let mut m = Mux::new(r);
+    let mut all = vec![];
+    let pmt_pid = 0x100u16;
+    let pat = pat_section(1, 0, &[(1, pmt_pid)]);
+    all.extend(m.section(0, &pat, &simple_plan(pat.len())));
+    for v in 1..(2 + r.below(5) as u8) {
+        let on_pat = r.chance(1, 3);
+        let blen = match r.below(5) { 0 => r.below(6) as usize, 1 => 1000 + r.below(13) as usize, _ => r.below(120) as usize };
+        let mut body = if on_pat { r.bytes(blen) } else {
+            let mut b = vec![r.byte(), r.byte()];
+            let pd = rand_desc_loop(r, 3);
+            let pil = match r.below(5) { 0 => pd.len() + 1 + r.below(5) as usize, 1 => 4095, _ => pd.len() };
+            b.push(0xf0 | (pil >> 8) as u8 & 0x0f); b.push(pil as u8); b.extend(&pd);
+            for _ in 0..r.below(4) {
+                let ed = rand_desc_loop(r, 3);
+                let esil = match r.below(6) { 0 => ed.len() + 1, 1 => 4095, _ => ed.len() };
+                b.extend_from_slice(&[if r.chance(1, 2) { 0x1b } else { r.byte() }, r.byte(), r.byte(), 0xf0 | (esil >> 8) as u8 & 0x0f, esil as u8]);
+                b.extend(&ed);
+            }
+            if r.chance(1, 3) { let l = r.below(b.len() as u64 + 1) as usize; b.truncate(l); }
+            b
+        };
+        if body.len() > 1012 { body.truncate(1012); }
+        let tid = if r.chance(4, 5) { if on_pat { 0 } else { 2 } } else { r.byte() };
+        let mut sec = syntax_section(tid, 1, v, &body);
+        match r.below(8) {
+            0 => { sec[1] &= 0x7f; }                         // syntax bit cleared
+            1 => { let sl = r.below(4096) as usize; sec[1] = (sec[1] & 0xf0) | (sl >> 8) as u8; sec[2] = sl as u8; }
+            2 => { sec[5] &= 0xfe; }                         // current_next_indicator = 0
+            3 => { let l = sec.len(); sec.truncate(l.saturating_sub(1 + r.below(6) as usize).max(3)); }
+            _ => {}
+        }
+        let plan = rand_plan(r, sec.len(), 1);
+        all.extend(m.section(if on_pat { 0 } else { pmt_pid }, &sec, &plan));
+    }
+    all
+}
+
+fn gen_c01(tier: &str, r: &Rng, o: &mut Out<'_>) {
+    let n = if tier == "thorough" { 50_000 } else { 1_200 };
+    for i in 0..n {
+        for &cfg in ["b0t1", "b1t1"].iter() {
+            let mut pkts = match i % 5 {
+                0 => wf_mux(r, 1 + r.below(2) as usize, 3, 2, 300, true),
+                1 => hostile_psi_stream(r),
+                2 => dispatcher_stream(r, 5 + r.below(30) as usize, true),
+                3 => { let mut p = hostile_psi_stream(r); p.extend(wf_mux(r, 1, 2, 1, 200, false)); p }
+                _ => (0..(1 + r.below(20))).map(|_| { let mut p = rand_packet(r); if r.chance(1, 2) { p[1] &= 0x60; p[2] = [0u8, 0, 1, 0x11][r.below(4) as usize]; } if r.chance(1, 2) { p[3] &= 0x3f; } p }).collect(),
+            };
+            if i % 5 != 4 { mutate(r, &mut pkts); }
+            let mut bytes = concat(&pkts);
+            // cut anywhere, packet-aligned or not
+            let mut pushes = vec![];
+            if r.chance(1, 2) { pushes = rand_pushes(r, &pkts); }
+            else {
+                if r.chance(1, 4) { let l = r.below(bytes.len() as u64 + 1) as usize; bytes.truncate(l); }
+                let mut pos = 0;
+                while pos < bytes.len() { let l = (1 + r.below(600) as usize).min(bytes.len() - pos); pushes.push(bytes[pos..pos + l].to_vec()); pos += l; }
+                if pushes.is_empty() { pushes.push(vec![]); }
+            }
+            emit(o, false, cfg, &pushes);
+        }
+    }
+    // leaf accessors on hostile bytes (every op must return, never PANIC)
+    for _ in 0..(n / 2) {
+        o.h(&format!("af {}", hex(&r.bytes(1 + r.below(184) as usize))));
+        o.h(&format!("pes {}", hex(&{ let mut b = vec![0, 0, 1]; b.extend(r.bytes(r.below(40) as usize)); b })));
+        o.h(&format!("pmt {}", hex(&r.bytes(r.below(60) as usize))));
+        o.h(&format!("desc {}", hex(&r.bytes(r.below(40) as usize))));
+        o.h(&format!("pat {}", hex(&r.bytes(r.below(40) as usize))));
+        o.h(&format!("pkt {}", hex(&rand_packet(r))));
+    }
+    o.meta("plans", "well-formed, hostile-PSI, dispatcher and random streams, mutated (bit flips, length-field edits, drops, duplicates, swaps), pushed whole / packet-aligned / at arbitrary byte offsets; both builds (cfg(fuzzing) bypasses the CRC); every callback touches every accessor and Debug impl");
+}
+
+/// fixed demonstration inputs for the recorded findings (used to build known_findings.json)
+fn gen_probes(r: &Rng, o: &mut Out<'_>) {
+    // F2: PAT with one CRC bit flipped, then the intact PAT (same version) three times
+    let pat = pat_section(1, 0, &[(1, 0x100)]);
+    let mut bad = pat.clone(); let n = bad.len(); bad[n - 1] ^= 1;
+    let mut m = Mux::new(r); m.cc.insert(0, 0);
+    let mut all = m.section(0, &bad, &simple_plan(bad.len()));
+    for _ in 0..3 { all.extend(m.section(0, &pat, &simple_plan(pat.len()))); }
+    writeln!(o.w, "F2 demux b0t0 {}", hex(&concat(&all))).unwrap();
+    // F5: copyright bit set
+    writeln!(o.w, "F5 pes 000001e00000820000").unwrap();
+    // F7: PAT v0, PMT v0 {0x101,0x102}, PAT v1 (adds a program), PMT v1 {0x101}, probe on 0x102
+    let mut m = Mux::new(r);
+    for p in [0u16, 0x100, 0x110, 0x101, 0x102] { m.cc.insert(p, 0); }
+    let pat0 = pat_section(1, 0, &[(1, 0x100)]);
+    let pmt0 = pmt_section(1, 0, 0x101, &[], &[(0x1b, 0x101, vec![]), (0x0f, 0x102, vec![])]);
+    let pat1 = pat_section(1, 1, &[(1, 0x100), (2, 0x110)]);
+    let pmt1 = pmt_section(1, 1, 0x101, &[], &[(0x1b, 0x101, vec![])]);
+    let mut all = m.section(0, &pat0, &simple_plan(pat0.len()));
+    all.extend(m.section(0x100, &pmt0, &simple_plan(pmt0.len())));
+    all.extend(m.section(0, &pat1, &simple_plan(pat1.len())));
+    all.extend(m.section(0x100, &pmt1, &simple_plan(pmt1.len())));
+    all.push(m.raw(0x102, false, &[0x55; 184]));
+    writeln!(o.w, "F7 demux b0t0 {}", hex(&concat(&all))).unwrap();
+    // control for F7: without the PAT bump the PID is removed and re-offered
+    let mut m = Mux::new(r);
+    for p in [0u16, 0x100, 0x110, 0x101, 0x102] { m.cc.insert(p, 0); }
+    let mut all = m.section(0, &pat0, &simple_plan(pat0.len()));
+    all.extend(m.section(0x100, &pmt0, &simple_plan(pmt0.len())));
+    all.extend(m.section(0x100, &pmt1, &simple_plan(pmt1.len())));
+    all.push(m.raw(0x102, false, &[0x55; 184]));
+    writeln!(o.w, "F7control demux b0t0 {}", hex(&concat(&all))).unwrap();
+}
+
 pub fn generate(prop: &str, tier: &str, seed: u64, w: &mut dyn Write) {
     let r = Rng::new(seed);
     let mut o = Out { w, n: 0 };
     match prop {
+        "probes" => gen_probes(&r, &mut o),
         "C12" => gen_c12(tier, &r, &mut o),
         "C13" => gen_c13(tier, &r, &mut o),
         "C14" => gen_c14(tier, &r, &mut o),
         "C15" => gen_c15(tier, &r, &mut o),
         "C16" => gen_c16(tier, &r, &mut o),
         "C17" => gen_c17(tier, &r, &mut o),
-        "C04" => gen_crc_cases(tier, &r, &mut o),
+        "C04" => gen_c04(tier, &r, &mut o),
+        "C05" => gen_c05(tier, &r, &mut o),
+        "C11" => gen_c11(tier, &r, &mut o),
+        "C01" => gen_c01(tier, &r, &mut o),
         "C03" => gen_c03(tier, &r, &mut o),
         "C02" => gen_c02(tier, &r, &mut o),
         "C06" => gen_c06(tier, &r, &mut o),
